@@ -317,7 +317,7 @@ pub fn drain(s: &mut In) -> bool {
         if let Some(id) = recs.iter().find(|r| !rels.contains(r)) {
             let p = crate::refmqtt::ack(6, *id);
             let b = crate::refmqtt::encode(s.conn.ver(), &p);
-            s.sent.push(Sent { t: T::PubRel(*id), pkt: Some(p), step: step(), rest: vec![], complete_step: Some(step()), tag: 0 });
+            s.sent.push(Sent { t: T::PubRel(*id), pkt: Some(p), step: step(), rest: vec![], complete_step: Some(step()), tag: 0, half: false });
             s.conn.send_raw(&b);
             return true;
         }
